@@ -290,6 +290,39 @@ func c16PlainStrings(m map[string]any) map[string]string {
 	return out
 }
 
+// c16EncoderDecoys: both encoders are called on an unrelated map / document with a writer that fails
+// after 0 / 3 / 17 / 40 bytes (chosen by salt) — an earlier encode that failed part-way must leave
+// no trace in a later one (the round-trip clause holds for every history of calls).
+func c16EncoderDecoys(salt int) {
+	n := []int{0, 3, 17, 40}[salt%4]
+	decoy := map[string]interface{}{"zz_decoy.user": "u", "zz_decoy.password": "p", "zz_decoy.url": "jdbc.x"}
+	_ = props.EncoderFn(&failAfterWriter{n: n}, decoy)
+	decoyDom := dom.Builder().Container()
+	decoyDom.AddValue("zz_decoy.user", dom.LeafNode("u")).AddValue("zz_decoy.password", dom.LeafNode("p")).AddValue("zz_decoy.url", dom.LeafNode("jdbc.x"))
+	_ = props.DomEncoderFn(&failAfterWriter{n: n}, decoyDom)
+}
+
+// c16FailReader hands out the first n bytes of s and then fails.
+type c16FailReader struct {
+	s string
+	n int
+}
+
+var errC16Reader = fmt.Errorf("reader fails")
+
+func (r *c16FailReader) Read(p []byte) (int, error) {
+	if r.n <= 0 || len(r.s) == 0 {
+		return 0, errC16Reader
+	}
+	n := min(len(p), r.n, len(r.s))
+	copy(p, r.s[:n])
+	r.s, r.n = r.s[n:], r.n-n
+	return n, nil
+}
+
+// c16DecoyText: an unrelated text of 740 bytes (keys outside every pool).
+var c16DecoyText = strings.Repeat("zz_decoy.user=u\nzz_decoy.password=p\n", 20)
+
 // c16ChunkReader is a plain io.Reader handing out the text in pieces of an odd size.
 type c16ChunkReader struct {
 	s    string
@@ -311,11 +344,10 @@ func c16EvalBig(c *Ctx, raw []byte) {
 	if err := json.Unmarshal(raw, &p); err != nil {
 		panic(err)
 	}
-	keys, kv, text, ok := c16BigPairs(p)
+	_, kv, text, ok := c16BigPairs(p)
 	if !ok {
 		return
 	}
-	_ = keys
 	if len(kv) >= 2 {
 		c.Nontrivial()
 	}
@@ -332,6 +364,12 @@ func c16EvalBig(c *Ctx, raw []byte) {
 	if p.ValLen > 64<<10 {
 		c.Dist("big:line>64KiB")
 	}
+	c16ExactLarge(c, kv, text)
+}
+
+// c16ExactLarge: the exactness clauses on a (possibly large) prefix-free set kv and its rendered
+// text, through every entry point, with small details.
+func c16ExactLarge(c *Ctx, kv map[string]string, text string) {
 	kvAny := func() map[string]any {
 		m := make(map[string]any, len(kv))
 		for k, v := range kv {
@@ -359,14 +397,35 @@ func c16EvalBig(c *Ctx, raw []byte) {
 			{"plain io.Reader, 4093-byte pieces", func() io.Reader { return &c16ChunkReader{s: text, step: 4093} }, props.DecoderFn},
 			{"DefaultFileDecoderProvider(x.properties)", func() io.Reader { return bytes.NewBufferString(text) }, common.DefaultFileDecoderProvider("x.properties")},
 		}
-		for _, rd := range readers {
+		for i, rd := range readers {
+			// a decode of an unrelated text whose reader fails part-way (after 0 / 3 / 700 bytes) comes
+			// first: it must leave no trace in the decode that follows
+			decoy := &c16FailReader{s: c16DecoyText, n: []int{0, 3, 700}[i%3]}
+			_, _ = dom.Builder().FromReader(decoy, rd.dec)
 			cb, err := dom.Builder().FromReader(rd.mk(), rd.dec)
 			if !c.Direct("decode-no-error", err == nil, with(map[string]any{"reader": rd.name, "error": fmt.Sprint(err)})) {
 				continue
 			}
-			same, d := c16BigDiff(c16LeafStrings(cb), kv)
+			first := c16LeafStrings(cb)
+			same, d := c16BigDiff(first, kv)
 			if d != nil {
 				d["reader"] = rd.name
+			}
+			c.Direct("flatten(FromReader(render(kv)))==kv", same, with(d))
+			// flattening the same document again gives the same pairs, and leaves the first result as it was
+			firstMap := cb.Flatten()
+			same, d = c16BigDiff(c16LeafStrings(cb), kv)
+			if d != nil {
+				d["reader"], d["flatten"] = rd.name, "second call on the same document"
+			}
+			c.Direct("flatten(FromReader(render(kv)))==kv", same, with(d))
+			again := make(map[string]string, len(firstMap))
+			for k, l := range firstMap {
+				again[k] = fmt.Sprint(l.Value())
+			}
+			same, d = c16BigDiff(again, kv)
+			if d != nil {
+				d["reader"], d["flatten"] = rd.name, "earlier result, read after a later Flatten call"
 			}
 			c.Direct("flatten(FromReader(render(kv)))==kv", same, with(d))
 		}
@@ -387,6 +446,7 @@ func c16EvalBig(c *Ctx, raw []byte) {
 			c.Direct("flattenPlain(Unflatten(kv))==kv", same, with(d))
 		}
 		// --- encoders and the way back
+		c16EncoderDecoys(len(text))
 		{
 			var buf bytes.Buffer
 			err := props.EncoderFn(&buf, kvAny())
